@@ -69,8 +69,10 @@ static double cpu_now(void) {
     return ts.tv_sec * 1e3 + ts.tv_nsec / 1e6;
 }
 
+static int no_out = 0;
 static void out_append(const void *p, size_t n) {
     const char *c = p;
+    if(no_out) { out_off += n; return; }
     while(n > 0) {
         ssize_t w = real_write(out_fd, c, n);
         if(w <= 0) die("out write failed", NULL);
@@ -316,6 +318,9 @@ int main(int argc, char **argv) {
             RET("\"pos\":%lld", (long long)real_lseek(fds[slot(t[1])], 0, SEEK_CUR));
         } else if(!strcmp(op, "seek")) {
             RET("\"pos\":%lld", (long long)real_lseek(fds[slot(t[1])], atoll(t[2]), SEEK_SET));
+        } else if(!strcmp(op, "noout")) {
+            no_out = atoi(t[1]);
+            RET("\"rc\":%d", 1);
         } else if(!strcmp(op, "iolog")) {
             io_set_log(atoi(t[1]));
             RET("\"rc\":%d", 1);
@@ -480,8 +485,11 @@ int main(int argc, char **argv) {
             int comp = !strcmp(op, "chunkcomp");
             ssize_t want = comp ? zck_get_chunk_comp_size(c) : zck_get_chunk_size(c);
             if(t[3] && atoll(t[3]) >= 0) want = atoll(t[3]);
-            if(want < 0 || want > (1LL << 31)) { RET("\"rc\":%d,\"badsize\":%zd", -8, want); continue; }
+            if(want < 0) { RET("\"rc\":%d,\"badsize\":%zd", -8, want); continue; }
+            /* a caller may always offer a smaller buffer than the declared size */
+            if(want > (16LL << 20)) want = 16LL << 20;
             char *b = malloc(want ? want : 1);
+            if(!b) die("malloc", NULL);
             ssize_t r = comp ? zck_get_chunk_comp_data(c, b, want) : zck_get_chunk_data(c, b, want);
             off_t o = out_off;
             if(r > 0) out_append(b, r > want ? (size_t)want : (size_t)r);
